@@ -23,6 +23,7 @@ import (
 
 	"github.com/cloudflare/circl/internal/verifmc"
 	kit "github.com/cloudflare/circl/internal/verifref/c02kit"
+	"github.com/cloudflare/circl/internal/verifref/eddsa"
 	"github.com/cloudflare/circl/sign"
 	dil2 "github.com/cloudflare/circl/sign/dilithium/mode2"
 	dil3 "github.com/cloudflare/circl/sign/dilithium/mode3"
@@ -69,6 +70,15 @@ var c02SchemeFacts = map[string]struct {
 	"Ed448-Dilithium3":   {family: "hybrids", dil: &c02DilParams{6, 55, dil3.SignatureSize}, scalars: []kit.Scalar{{Off: dil3.SignatureSize + 57, Len: 57, Order: c02L448}}},
 }
 
+// c02WrapSigner: RFC 8032 signing by the independent model ref/eddsa (bound to the RFC vectors by C05's refcheck and,
+// here, to the real signer on every base case), which hashes the context length octet modulo 256.
+func c02WrapSigner(v *eddsa.Variant) func(seed, msg []byte, ctx string) []byte {
+	return func(seed, msg []byte, ctx string) []byte {
+		sc, prefix := v.Expand(seed)
+		return v.SignRaw(sc, prefix, v.PublicKey(seed), msg, []byte(ctx))
+	}
+}
+
 func c02Opts(ctx string, alt bool) *sign.SignatureOpts {
 	if ctx == "" && alt {
 		return nil // nil options and empty context are the same request
@@ -111,6 +121,9 @@ func c02SchemeSubject(sch sign.Scheme) *kit.Subject {
 	if sch.SupportsContext() {
 		s.Contexts = []string{"", "a", c02Ctx255}
 		s.BadContexts = []string{c02Ctx256}
+		if sch.Name() == "Ed448" {
+			s.WrapSign = c02WrapSigner(eddsa.Ed448)
+		}
 	}
 	if f.dil != nil {
 		s.Hint = &kit.Hint{Off: f.dilOff + f.dil.sigSize - f.dil.omega - f.dil.k, Omega: f.dil.omega, K: f.dil.k}
@@ -176,6 +189,8 @@ func c02Floors(r *verifmc.Run, subjects int, scalars, hints, ctx bool) {
 		r.RequireCounter("alt_ctx-other", int64(subjects))
 		r.RequireCounter("alt_badctx-verify", int64(subjects))
 		r.RequireCounter("badctx_sign_refused", int64(subjects))
+		r.RequireCounter("alt_longctx-related", int64(4*subjects))
+		r.RequireCounter("longctx_sign_refused", int64(4*subjects))
 	}
 }
 
